@@ -503,6 +503,7 @@ Fixpoint sprintf_loop (fuel : nat) (fmt : str) (args : list farg) : option str :
             | c1 :: _ => if N.eqb c1 91 || N.eqb c1 42 then None else
               let '(w, r2) := parsenum 0 false r1 in
               let '(p, r3, bad) :=
+                  (* precision only if something follows the '.': if i+1 < end && format[i] == '.' *)
                   match r2 with
                   | c2 :: t2 =>
                       if N.eqb c2 46 then
@@ -510,7 +511,7 @@ Fixpoint sprintf_loop (fuel : nat) (fmt : str) (args : list farg) : option str :
                         | c3 :: _ => if N.eqb c3 91 || N.eqb c3 42 then (None, t2, true)
                                      else let '(p, r) := parsenum 0 false t2 in
                                           ((match p with Some x => Some x | None => Some 0%N end), r, false)
-                        | [] => (Some 0%N, [], false)
+                        | [] => (None, r2, false)
                         end
                       else (None, r2, false)
                   | [] => (None, [], false)
@@ -842,3 +843,340 @@ Definition call_builtin (name : str) (args0 : list val) (st : bstate) : outcome 
   end.
 
 End WithOracles.
+
+(* ====================================================================== *)
+(** * test bookkeeping (testinfo.go), evalFunccall, Eval, handleEvyErr *)
+
+(* TestInfo: total and the list of recorded failures (messages) *)
+Record testinfo := { t_total : nat; t_errors : list str }.
+Definition ti_init : testinfo := {| t_total := 0; t_errors := [] |}.
+Definition fail_count (t : testinfo) : nat := List.length (t_errors t).
+Definition success_count (t : testinfo) : nat := (t_total t - fail_count t)%nat.
+
+(* testinfo.go: suffix *)
+Definition plural_suffix (n : nat) : str := if Nat.eqb n 1 then [] else s_ "s".
+
+Definition cross_mark : str := [10060%N; 32%N].            (* "❌ " U+274C *)
+Definition check_mark : str := [10004%N; 65039%N; 32%N].   (* "✔️ " U+2714 U+FE0F *)
+Definition green_mark : str := [9989%N; 32%N].             (* "✅ " U+2705 *)
+
+(* TestInfo.Report: what is printed (None = nothing) *)
+Definition report (no_summary : bool) (t : testinfo) : option str :=
+  if no_summary || Nat.eqb (t_total t) 0 then None
+  else
+    let succs := success_count t in
+    let fails := fail_count t in
+    if Nat.ltb 0 fails then
+      Some (cross_mark ++ nat_str fails ++ s_ " failed test" ++ plural_suffix fails ++ [10%N]
+            ++ check_mark ++ nat_str succs ++ s_ " passed test" ++ plural_suffix succs ++ [10%N])
+    else Some (green_mark ++ nat_str succs ++ s_ " passed test" ++ plural_suffix succs ++ [10%N]).
+
+(* does an outcome end the run (err != nil in evalFunccall)? *)
+Definition stops (r : outcome) : bool := match r with ORet _ => false | _ => true end.
+
+(* evalFunccall for a built-in: the special treatment of "test" *)
+Definition account_test (failfast : bool) (is_test : bool) (r : outcome) (t : testinfo) : outcome * testinfo :=
+  if negb is_test then (r, t)
+  else
+    let t1 := {| t_total := S (t_total t); t_errors := t_errors t |} in
+    match r with
+    | OTestFail msg =>
+        let t2 := {| t_total := t_total t1; t_errors := t_errors t1 ++ [msg] |} in
+        if failfast then (r, t2) else (ORet VNone, t2)
+    | _ => (r, t1)
+    end.
+
+Record callres := { c_out : outcome; c_err : errst }.
+
+Section Run.
+Variable o : oracles.
+Variable failfast : bool.
+
+(* the statements of a program that is a sequence of built-in calls *)
+Fixpoint run_calls (calls : list (str * list val)) (st : bstate) (t : testinfo)
+  : list callres * list effect * testinfo * option outcome :=
+  match calls with
+  | [] => ([], [], t, None)
+  | (name, args) :: rest =>
+      let '(r0, effs, st') := call_builtin o name args st in
+      let '(r, t') := account_test failfast (str_eqb name (s_ "test")) r0 t in
+      let cr := {| c_out := r; c_err := b_err st' |} in
+      if stops r then ([cr], effs, t', Some r)
+      else let '(crs, effs', t'', stop) := run_calls rest st' t' in
+           (cr :: crs, effs ++ effs', t'', stop)
+  end.
+End Run.
+
+(* Go's int(f) then the status the operating system reports: the low 8 bits *)
+Definition exit_status (f : float) : Z := (go_int64 f) mod 256.
+
+(* classification of Eval's result and the status of `evy run` (handleEvyErr) *)
+Inductive run_class := RcOk | RcPanic | RcExit (f : float) | RcTest | RcHostCrash | RcUnsupported | RcParseError.
+
+Definition classify (stop : option outcome) (t : testinfo) : run_class :=
+  match stop with
+  | Some (OPanic _) => RcPanic
+  | Some (OExit f) => RcExit f
+  | Some (OTestFail _) => RcTest
+  | Some OHostCrash => RcHostCrash
+  | Some OIllTyped => RcParseError
+  | Some OUnsupported => RcUnsupported
+  | Some (ORet _) | None => if Nat.ltb 0 (fail_count t) then RcTest else RcOk
+  end.
+
+(* main.go: handleEvyErr — nil: 0; ExitError n: os.Exit(n); anything else: 1.
+   (a host crash is Go's exit status 2; a parse error is also 1) *)
+Definition cli_status (c : run_class) : Z :=
+  match c with
+  | RcOk => 0
+  | RcExit f => exit_status f
+  | RcHostCrash => 2
+  | _ => 1
+  end.
+
+Definition all_well_typed (calls : list (str * list val)) : bool :=
+  forallb (fun c => let '(name, args) := c in
+             match find (fun s => str_eqb (s_ (b_name s)) name) builtin_sigs with
+             | Some sg => args_accepted (b_params sg) (b_variadic sg) (map type_of args)
+             | None => false
+             end) calls.
+
+(* Evaluator.Run on a program that is a sequence of built-in calls *)
+Definition run_program (o : oracles) (failfast no_summary : bool) (inputs : list str)
+           (calls : list (str * list val)) : list callres * list effect * testinfo * run_class :=
+  if negb (all_well_typed calls) then ([], [], ti_init, RcParseError)
+  else
+    let '(crs, effs, t, stop) := run_calls o failfast calls {| b_err := err_init; b_inputs := inputs |} ti_init in
+    let cls := classify stop t in
+    let effs' := match cls, report no_summary t with
+                 | RcHostCrash, _ => effs
+                 | _, Some s => effs ++ [EPrint s]
+                 | _, None => effs
+                 end in
+    (crs, effs', t, cls).
+
+(* ====================================================================== *)
+(** * wire format and the oracle instance used by the extracted model *)
+
+(* number rendering is an oracle: the extracted model leaves a MARKER in the
+   text (private-use code points U+F0000..U+F0003 around the bit pattern and the
+   verb specification) which the harness replaces by what Go's strconv / fmt
+   print for that number. *)
+Definition mark_num (f : float) : str :=
+  [983040%N] ++ z_str (bits_of_float f) ++ [983041%N].
+
+Definition spec_text (sp : fmtspec) : str :=
+  [37%N] ++ (if f_sharp sp then [35%N] else []) ++ (if f_plus sp then [43%N] else [])
+  ++ (if f_minus sp then [45%N] else []) ++ (if f_space sp then [32%N] else [])
+  ++ (if f_zero sp then [48%N] else [])
+  ++ (match f_wid sp with Some w => n_str w | None => [] end)
+  ++ (match f_prec sp with Some p => [46%N] ++ n_str p | None => [] end)
+  ++ [f_verb sp].
+
+Definition mark_fmt (sp : fmtspec) (f : float) : str :=
+  [983042%N] ++ spec_text sp ++ [983043%N] ++ z_str (bits_of_float f) ++ [983041%N].
+
+Record uni_row := { u_cp : N; u_up : N; u_lo : N; u_letter : bool; u_print : bool }.
+
+Fixpoint uni_find (c : N) (l : list uni_row) : option uni_row :=
+  match l with [] => None | r :: t => if N.eqb (u_cp r) c then Some r else uni_find c t end.
+
+Fixpoint pf_find (s : str) (l : list (str * parse_res)) : parse_res :=
+  match l with [] => PFSyntax | (k, r) :: t => if str_eqb k s then r else pf_find s t end.
+
+Fixpoint zs_eqb (a b : list Z) : bool :=
+  match a, b with [], [] => true | x :: a', y :: b' => Z.eqb x y && zs_eqb a' b' | _, _ => false end.
+
+Fixpoint math_find (name : str) (args : list Z) (l : list (str * list Z * float)) : float :=
+  match l with
+  | [] => nan
+  | (n, a, r) :: t => if str_eqb n name && zs_eqb a args then r else math_find name args t
+  end.
+
+Definition table_oracles (uni : list uni_row) (pf : list (str * parse_res))
+           (mth : list (str * list Z * float)) (r1 : float) : oracles :=
+  {| o_num_str := mark_num;
+     o_fmt_float := mark_fmt;
+     o_upper := fun c => match uni_find c uni with Some r => u_up r | None => c end;
+     o_lower := fun c => match uni_find c uni with Some r => u_lo r | None => c end;
+     o_is_letter := fun c => match uni_find c uni with Some r => u_letter r | None => false end;
+     o_is_print := fun c => match uni_find c uni with Some r => u_print r | None => (32 <=? c)%N && (c <? 127)%N end;
+     o_parse_float := fun s => pf_find s pf;
+     o_math := fun n a => math_find n (map bits_of_float a) mth;
+     o_rand := fun _ => 0;
+     o_rand1 := r1 |}.
+
+(* ---------- decoding ---------- *)
+Fixpoint dec_ty (x : sx) : option ty :=
+  match x with
+  | Sym s =>
+      if str_eqb s (s_ "num") then Some TNum else if str_eqb s (s_ "string") then Some TStr
+      else if str_eqb s (s_ "bool") then Some TBool else if str_eqb s (s_ "any") then Some TAny
+      else if str_eqb s (s_ "none") then Some TNone else None
+  | Lst [Sym k; y] =>
+      if str_eqb k (s_ "arr") then option_map TArr (dec_ty y)
+      else if str_eqb k (s_ "map") then option_map TMap (dec_ty y) else None
+  | _ => None
+  end.
+
+Definition dec_bool (x : sx) : option bool :=
+  match x with
+  | Sym s => if str_eqb s (s_ "true") then Some true else if str_eqb s (s_ "false") then Some false else None
+  | _ => None
+  end.
+
+Fixpoint dec_val (x : sx) : option val :=
+  match x with
+  | Lst (Sym k :: rest) =>
+      if str_eqb k (s_ "num") then
+        match rest with [Int b] => Some (VNum (float_of_bits b)) | _ => None end
+      else if str_eqb k (s_ "str") then
+        match rest with [Str s] => Some (VStr s) | _ => None end
+      else if str_eqb k (s_ "bool") then
+        match rest with [b] => option_map VBool (dec_bool b) | _ => None end
+      else if str_eqb k (s_ "any") then
+        match rest with
+        | [t; y] => match dec_ty t, dec_val y with Some t', Some v => Some (VAny t' v) | _, _ => None end
+        | _ => None
+        end
+      else if str_eqb k (s_ "arr") then
+        match rest with
+        | t :: elems =>
+            match dec_ty t with
+            | Some t' =>
+                option_map (VArr t')
+                  ((fix go (l : list sx) : option (list val) :=
+                      match l with
+                      | [] => Some []
+                      | y :: r => match dec_val y, go r with Some v, Some vs => Some (v :: vs) | _, _ => None end
+                      end) elems)
+            | None => None
+            end
+        | [] => None
+        end
+      else if str_eqb k (s_ "map") then
+        match rest with
+        | t :: elems =>
+            match dec_ty t with
+            | Some t' =>
+                option_map (VMap t')
+                  ((fix go (l : list sx) : option (list (str * val)) :=
+                      match l with
+                      | [] => Some []
+                      | Lst [Str key; y] :: r =>
+                          match dec_val y, go r with Some v, Some vs => Some ((key, v) :: vs) | _, _ => None end
+                      | _ => None
+                      end) elems)
+            | None => None
+            end
+        | [] => None
+        end
+      else None
+  | _ => None
+  end.
+
+Fixpoint dec_list {A} (f : sx -> option A) (l : list sx) : option (list A) :=
+  match l with
+  | [] => Some []
+  | y :: r => match f y, dec_list f r with Some v, Some vs => Some (v :: vs) | _, _ => None end
+  end.
+
+Definition dec_call (x : sx) : option (str * list val) :=
+  match x with
+  | Lst (Sym name :: args) => option_map (fun a => (name, a)) (dec_list dec_val args)
+  | _ => None
+  end.
+
+Definition dec_uni (x : sx) : option uni_row :=
+  match x with
+  | Lst [Int c; Int u; Int l; le; pr] =>
+      match dec_bool le, dec_bool pr with
+      | Some le', Some pr' => Some {| u_cp := Z.to_N c; u_up := Z.to_N u; u_lo := Z.to_N l; u_letter := le'; u_print := pr' |}
+      | _, _ => None
+      end
+  | _ => None
+  end.
+
+Definition dec_pf (x : sx) : option (str * parse_res) :=
+  match x with
+  | Lst [Str s; Sym k; Int b] =>
+      if str_eqb k (s_ "ok") then Some (s, PFOk (float_of_bits b))
+      else if str_eqb k (s_ "range") then Some (s, PFRange (float_of_bits b))
+      else if str_eqb k (s_ "syntax") then Some (s, PFSyntax) else None
+  | _ => None
+  end.
+
+Definition dec_int (x : sx) : option Z := match x with Int z => Some z | _ => None end.
+Definition dec_str (x : sx) : option str := match x with Str s => Some s | _ => None end.
+
+Definition dec_math (x : sx) : option (str * list Z * float) :=
+  match x with
+  | Lst [Str n; Lst a; Int r] => option_map (fun a' => (n, a', float_of_bits r)) (dec_list dec_int a)
+  | _ => None
+  end.
+
+(* ---------- encoding ---------- *)
+Fixpoint enc_ty (t : ty) : sx :=
+  match t with
+  | TNum => Sym (s_ "num") | TStr => Sym (s_ "string") | TBool => Sym (s_ "bool") | TAny => Sym (s_ "any")
+  | TNone => Sym (s_ "none") | TGenArr => Sym (s_ "genarr") | TGenMap => Sym (s_ "genmap")
+  | TArr t' => Lst [Sym (s_ "arr"); enc_ty t']
+  | TMap t' => Lst [Sym (s_ "map"); enc_ty t']
+  end.
+
+Fixpoint enc_val (v : val) : sx :=
+  match v with
+  | VNum f => Lst [Sym (s_ "num"); sx_float f]
+  | VStr s => Lst [Sym (s_ "str"); Str s]
+  | VBool b => Lst [Sym (s_ "bool"); sx_bool b]
+  | VAny t v' => Lst [Sym (s_ "any"); enc_ty t; enc_val v']
+  | VArr t l => Lst (Sym (s_ "arr") :: enc_ty t :: map enc_val l)
+  | VMap t l => Lst (Sym (s_ "map") :: enc_ty t :: map (fun kv => let '(k, x) := kv in Lst [Str k; enc_val x]) l)
+  | VNone => Lst [Sym (s_ "none")]
+  end.
+
+Definition enc_outcome (r : outcome) : sx :=
+  match r with
+  | ORet v => Lst [Sym (s_ "ret"); enc_val v]
+  | OPanic BadArguments => Lst [Sym (s_ "panic"); Sym (s_ "BadArguments")]
+  | OPanic (PanicUser m) => Lst [Sym (s_ "panic"); Sym (s_ "user"); Str m]
+  | OExit f => Lst [Sym (s_ "exit"); sx_float f]
+  | OTestFail m => Lst [Sym (s_ "testfail"); Str m]
+  | OHostCrash => Lst [Sym (s_ "hostcrash")]
+  | OIllTyped => Lst [Sym (s_ "illtyped")]
+  | OUnsupported => Lst [Sym (s_ "unsupported")]
+  end.
+
+Definition enc_effect (e : effect) : sx :=
+  match e with
+  | EPrint s => Lst [Sym (s_ "print"); Str s]
+  | ECls => Lst [Sym (s_ "cls")]
+  | ESleep ns => Lst [Sym (s_ "sleep"); Int ns]
+  | ERead => Lst [Sym (s_ "read")]
+  end.
+
+Definition enc_class (c : run_class) : sx :=
+  Sym (s_ match c with
+          | RcOk => "ok" | RcPanic => "panic" | RcExit _ => "exit" | RcTest => "test"
+          | RcHostCrash => "hostcrash" | RcUnsupported => "unsupported" | RcParseError => "parse-error"
+          end).
+
+(* entry point:
+   (run <failfast> <nosummary> (input…) (uni…) (pf…) (math…) <rand1 bits> (call…))
+   ↦ (result class status total fails (callres…) (effect…)) *)
+Definition builtins_case (x : sx) : sx :=
+  match x with
+  | Lst [Sym tag; ff; ns; Lst inputs; Lst uni; Lst pf; Lst mth; Int r1; Lst calls] =>
+      match dec_bool ff, dec_bool ns, dec_list dec_str inputs, dec_list dec_uni uni,
+            dec_list dec_pf pf, dec_list dec_math mth, dec_list dec_call calls with
+      | Some ff', Some ns', Some inputs', Some uni', Some pf', Some mth', Some calls' =>
+          let o := table_oracles uni' pf' mth' (float_of_bits r1) in
+          let '(crs, effs, t, cls) := run_program o ff' ns' inputs' calls' in
+          Lst [Sym (s_ "result"); enc_class cls; Int (cli_status cls);
+               sx_nat (t_total t); sx_nat (fail_count t);
+               Lst (map (fun c => Lst [enc_outcome (c_out c); sx_bool (e_err (c_err c)); Str (e_msg (c_err c))]) crs);
+               Lst (map enc_effect effs)]
+      | _, _, _, _, _, _, _ => Sym (s_ "decode-error")
+      end
+  | _ => Sym (s_ "decode-error")
+  end.
